@@ -78,6 +78,23 @@ pub fn main(args: &[String]) -> i32 {
                 .build(),
         ),
         (
+            // a heartbeat subscriber without history: pulses are its own, and do not count against its limit
+            "hb_tail_limit7".into(),
+            ReadOptions::builder()
+                .follow(FollowOption::WithHeartbeat(Duration::from_millis(15)))
+                .tail(true)
+                .limit(7)
+                .build(),
+        ),
+        (
+            "hb_tail".into(),
+            ReadOptions::builder()
+                .follow(FollowOption::WithHeartbeat(Duration::from_millis(15)))
+                .tail(true)
+                .context_id(c1)
+                .build(),
+        ),
+        (
             "lastid".into(),
             ReadOptions::builder()
                 .follow(FollowOption::On)
@@ -235,12 +252,22 @@ async fn follow(st: Store, opts: ReadOptions, done: Arc<AtomicBool>, slow_first:
             format!("r:{}:{}", id_hex(&f.id), id_hex(&f.context_id))
         }
     };
+    let mut last_real = Instant::now();
     loop {
         if items.len() < slow_first {
             tokio::time::sleep(Duration::from_millis(2)).await;
         }
+        // a heartbeat subscriber never sees a quiet channel: it is done when the writers are and only pulses arrive
+        if done.load(Ordering::SeqCst) && last_real.elapsed() > Duration::from_millis(450) {
+            break;
+        }
         match tokio::time::timeout(Duration::from_millis(50), rx.recv()).await {
-            Ok(Some(f)) => items.push(label(&f)),
+            Ok(Some(f)) => {
+                if f.topic != "xs.pulse" {
+                    last_real = Instant::now();
+                }
+                items.push(label(&f))
+            }
             Ok(None) => {
                 closed = true;
                 break;
